@@ -235,6 +235,41 @@ def token_cases() -> list[dict]:
             out.append({"ctx": "Branch", "tin": v, "alias": [], "rs": [("Branch", [t, v], 2), ("a", [], -1), ("Return", [], -1)], "carrier": ("Branch", 1)})
             out.append({"ctx": "Case", "tin": v, "alias": [], "rs": [("Switch", [t], -1), ("Case", [v], 3), ("Jump", [], 4), ("a", [], -1), ("Return", [], -1)], "carrier": ("Case", 0)})
         out.append({"ctx": "lives", "tin": t, "alias": [], "rs": [("lives", [t], -1), ("a", [], -1), ("Return", [], -1)], "carrier": ("lives", 0)})
+    # negative / zero coordinates of position marks
+    for xr, yr in ((-1, 5), (5, -1), (-1, -1), (0, -7), (-12, 0)):
+        for xo, yo in ((0, 0), (2, 2), (0, 2)):
+            t = f"p:{canon.hx('neg')},{xo},{yo},{xr},{yr}"
+            out.append({"ctx": "posmark-neg", "tin": t, "alias": [], "rs": [("x", [t], -1), ("Return", [], -1)], "carrier": ("x", 0)})
+    # every value slot of every opcode family with special syntax, with 0 / negative / constant values
+    vals = ["i:0", "i:1", "i:-3", "c:K_X"]
+    J = ("Jump", [], 4)
+    slots = []
+    for v in vals:
+        slots += [("CaseMenu2", [("message_SwitchMenu", ["i:1", "i:2"], -1), ("CaseMenu2", [v], 3), ("Jump", [], 4), ("a", [], -1), ("Return", [], -1)], 0),
+                  ("CaseValue", [("Switch", ["c:$S"], -1), ("CaseValue", ["i:3", v], 3), ("Jump", [], 4), ("a", [], -1), ("Return", [], -1)], 1),
+                  ("CaseVariable", [("Switch", ["c:$S"], -1), ("CaseVariable", ["i:4", v], 3), ("Jump", [], 4), ("a", [], -1), ("Return", [], -1)], 1),
+                  ("CaseScenario", [("SwitchScenario", ["c:$S"], -1), ("CaseScenario", ["i:5", v], 3), ("Jump", [], 4), ("a", [], -1), ("Return", [], -1)], 1),
+                  ("BranchValue", [("BranchValue", ["c:$V", "i:3", v], 2), ("a", [], -1), ("Return", [], -1)], 2),
+                  ("BranchVariable", [("BranchVariable", ["c:$V", "i:7", v], 2), ("a", [], -1), ("Return", [], -1)], 2),
+                  ("BranchBit", [("BranchBit", [v, "i:0"], 2), ("a", [], -1), ("Return", [], -1)], 0),
+                  ("BranchScenarioNow", [("BranchScenarioNow", [v, "i:0", "i:0"], 2), ("a", [], -1), ("Return", [], -1)], 0),
+                  ("SwitchRandom", [("SwitchRandom", [v], -1), ("Case", ["i:0"], 3), ("Jump", [], 4), ("a", [], -1), ("Return", [], -1)], 0),
+                  ("SwitchScenarioLevel", [("SwitchScenarioLevel", [v], -1), ("Case", ["i:0"], 3), ("Jump", [], 4), ("a", [], -1), ("Return", [], -1)], 0),
+                  ("flag_CalcValue", [("flag_CalcValue", ["c:$V", "i:2", v], -1), ("Return", [], -1)], 2),
+                  ("flag_CalcVariable", [("flag_CalcVariable", [v, "i:4", "c:$W"], -1), ("Return", [], -1)], 0),
+                  ("flag_SetAdventureLog", [("flag_SetAdventureLog", [v], -1), ("Return", [], -1)], 0),
+                  ("flag_SetScenario", [("flag_SetScenario", ["c:$S", v if v.startswith("i:") else "i:9", "i:0"], -1), ("Return", [], -1)], 1),
+                  ("flag_Clear", [("flag_Clear", [v], -1), ("Return", [], -1)], 0),
+                  ("message_SwitchTalk", [("message_SwitchTalk", [v], -1), ("CaseText", ["i:0", "s:61"], -1), ("Return", [], -1)], 0),
+                  ("CaseText", [("message_SwitchTalk", ["c:$V"], -1), ("CaseText", [v, "s:61"], -1), ("Return", [], -1)], 0),
+                  ("object", [("object", [v], -1), ("a", [], -1), ("Return", [], -1)], 0)]
+    for i in (0, 1, 3):
+        slots += [("BranchPerformance", [("BranchPerformance", [f"i:{i}", "i:0"], 2), ("a", [], -1), ("Return", [], -1)], 0),
+                  ("BranchDebug", [("BranchDebug", [f"i:{i % 2}"], 2), ("a", [], -1), ("Return", [], -1)], 0),
+                  ("flag_CalcBit", [("flag_CalcBit", ["c:$V", f"i:{i}", "i:0"], -1), ("Return", [], -1)], 1),
+                  ("flag_SetPerformance", [("flag_SetPerformance", [f"i:{i}", "i:0"], -1), ("Return", [], -1)], 0)]
+    for name, rs, idx in slots:
+        out.append({"ctx": "slot-" + name, "tin": rs[[r[0] for r in rs].index(name)][1][idx], "alias": [], "rs": rs, "carrier": (name, idx)})
     for i in range(4):
         c = f"c:{decomp.DMODE[i]}"
         out.append({"ctx": "dmode-set", "tin": f"i:{i}", "alias": [c], "rs": [("flag_SetDungeonMode", ["i:5", f"i:{i}"], -1), ("Return", [], -1)], "carrier": ("flag_SetDungeonMode", 1)})
